@@ -39,7 +39,7 @@ _Static_assert(LONG_MAX == 9223372036854775807L && INT_MAX == 2147483647, "LP64 
  * cross-check use the real arithmetic.
  * ------------------------------------------------------------------------ */
 #define VP_LIM(neg) ((neg) ? (unsigned long) LONG_MAX + 1UL : (unsigned long) LONG_MAX)
-#if defined(__CPROVER__) && !defined(VP_CONCRETE_ARITH)
+#if defined(VERIF_CBMC) && !defined(VP_CONCRETE_ARITH)
 _Static_assert(VP_N >= 8 && VP_N <= 16, "vp_pack packs the string into two 64-bit words");
 unsigned long __CPROVER_uninterpreted_dec_mag(unsigned long w0, unsigned long w1, int a, int b);
 _Bool __CPROVER_uninterpreted_dec_over(unsigned long w0, unsigned long w1, int a, int b, _Bool neg);
